@@ -134,7 +134,22 @@ class Effects:
         self._summ = None
 
     # -- single call -----------------------------------------------------
-    def classify(self, callee, call=None):
+    def _const_arg(self, name, func):
+        """Constant values a parameter receives at all call sites of a
+        private function (None if any site passes a non-constant)."""
+        vals = set()
+        sites = self.prog.callers().get(func.qualname, [])
+        if not sites:
+            return None
+        for caller, c in sites:
+            a = self.prog.bind_args(c, func).get(name)
+            if isinstance(a, ast.Constant) and isinstance(a.value, str):
+                vals.add(a.value)
+            else:
+                return None
+        return vals
+
+    def classify(self, callee, call=None, func=None):
         """(kind, raise-classes) of one resolved callee descriptor that is
         not a package function."""
         if callee == 'USER':
@@ -144,6 +159,16 @@ class Effects:
         if callee in ('builtins.open', 'gzip.open', 'io.open', 'bz2.open',
                       'lzma.open'):
             m = open_mode(call) if call is not None else None
+            if m is None and call is not None and func is not None:
+                # mode handed down through a parameter of a private helper
+                mode = call.args[1] if len(call.args) >= 2 else None
+                if isinstance(mode, ast.Name) and mode.id in func.params:
+                    vals = self._const_arg(mode.id, func)
+                    if vals and all(v.startswith('r') and '+' not in v
+                                    for v in vals):
+                        return READ, OS
+                    if vals:
+                        return DESTROY, OS
             if m is None:
                 return UNKNOWN, OS
             if m.startswith('r') and '+' not in m:
@@ -168,6 +193,15 @@ class Effects:
             return PURE, ()
         if callee.startswith('method:'):
             return PURE, ()
+        if callee.startswith('glob:'):
+            # a module-level name: a namedtuple / class-like factory is pure
+            nm = callee[5:].split('.')[0]
+            for mod, globs in self.prog.module_globals.items():
+                v = globs.get(nm)
+                if isinstance(v, ast.Call) and 'namedtuple' in ast.unparse(
+                        v.func).lower():
+                    return PURE, ()
+            return UNKNOWN, ('Exception',)
         if callee.startswith('unknown:'):
             return UNKNOWN, ('Exception',)
         for p in FS_MODULES:
@@ -197,7 +231,7 @@ class Effects:
                     if isinstance(g, Func):
                         es.add(g.qualname)
                     else:
-                        k, _ = self.classify(g, call)
+                        k, _ = self.classify(g, call, f)
                         if k == UNKNOWN:
                             self.unknown_prims.append((f, call, g))
                         if k not in (PURE, LOG):
